@@ -87,12 +87,33 @@ def valClass (v : Node) : Option String :=
       | none => (match vv with | .basic vi => if isBuiltinName vi.typn then none else some "named-scalar-element" | _ => some "collection-element")
 end
 
-/-- `none`: the inspector emitted for this root type compiles; `some c`: it does not, for reason `c`. -/
-def uncompilable (root : Node) : Option String :=
+mutual
+/-- Does the tree hold a `[]byte` node behind a pointer (`wantPtr`) / held plainly (`!wantPtr`)? -/
+def anyBytes (wantPtr : Bool) : Node → Bool
+  | .basic _ => false
+  | .struct _ chld => anyBytesL wantPtr chld
+  | .map _ k v => anyBytes wantPtr k || anyBytes wantPtr v
+  | .slice i e => if i.typn == "[]byte" then i.ptr == wantPtr else anyBytes wantPtr e
+def anyBytesL (wantPtr : Bool) : List Node → Bool
+  | [] => false
+  | n :: ns => anyBytes wantPtr n || anyBytesL wantPtr ns
+end
+
+/-- The type discipline of the emitted code, shape by shape (each reason is one known-finding class of C14). -/
+def uncompilableShape (root : Node) : Option String :=
   match root with
   | .struct _ chld => fieldsClass false chld
   | .slice _ e => elemClass e
   | .map _ k v => (match keyClass k true with | some c => some c | none => valClass v)
   | .basic _ => some "not-eligible"
+
+/-- `none`: the inspector emitted for this root type compiles; `some c`: it does not, for reason `c`.
+On top of the per-shape discipline one file-level rule: DeepEqual emits `bytes.Equal` for every `[]byte` node,
+pointer or not, but the `bytes` import is only registered by the compare snippet of a *plain* `[]byte`
+(writeCmp returns early for pointer nodes): a type whose only byte slices are `*[]byte` does not compile. -/
+def uncompilable (root : Node) : Option String :=
+  match uncompilableShape root with
+  | some c => some c
+  | none => if anyBytes true root && !anyBytes false root then some "ptr-bytes-alone" else none
 
 end Inspector
